@@ -136,7 +136,8 @@ def resolve_loops(ob, gb):
     if not ob.loops:
         return {}
     if gb not in _loop_cache:
-        rc, out, _ = run(["cbmc", gb, "--drop-unused-functions", "--show-loops"], 300, 8)
+        # entry-selected binaries have no main: without --function everything would be dropped as unused
+        rc, out, _ = run(["cbmc", gb, "--show-loops"] + (["--function", ob.entry] if ob.entry else ["--drop-unused-functions"]), 300, 8)
         byfn = {}
         for m in LOOP_RE.finditer(out):
             byfn.setdefault(m.group(4), []).append((int(m.group(3)), int(m.group(1).rsplit(".", 1)[1]), m.group(1)))
